@@ -2,7 +2,7 @@ from ..jobs import CH
 
 H = "vf.harness.frontends"
 META = {
-    "bounds": {"quick": "8 program shapes (lets, register sized by literal or let, gates with numeric and qubit arguments, nested blocks, loops and subcircuits with "
+    "bounds": {"quick": "10 program shapes (lets, register sized by literal or let, gates with numeric and qubit arguments, nested blocks, loops and subcircuits with "
                         "literal or let counts, bodies beginning or not with prepare/subcircuit, empty body); user names of both lets and the register drawn from "
                         "{anonymous, __r0, __r1, __c0, __c1, a, __c2}; size 1..2, let value 0..2, loop count 0..2, 2 float values",
                "thorough": "size 1..3, 4 float values"},
@@ -14,7 +14,7 @@ META = {
 def jobs(tier):
     q = tier == "quick"
     out = []
-    for shape in range(8):
+    for shape in range(10):
         for nr in ((0, 1, 3) if q else (0, 1, 3, 5)):
             for n3 in ((0, 4) if q else (0, 1, 4, 6)):
                 out.append(CH(name=f"c17_three_s{shape}_r{nr}_c{n3}", base="c17_three", func=f"{H}:c17_three",
